@@ -474,7 +474,11 @@ def handleProg (op : String) (args res : List Sexp) : Verdict :=
     | .ok a =>
       let s := search pp a (.list args)
       let ctx := s!"prog.{op} {dom}"
-      let m1 := s.c1.map (fun f => (confirm pp a f false).map (fun m => s!"[C01] {ctx}: {m}"))
+      -- (fbparams m 1): use_refined_invariants — the stored "invariants" are the forward invariants refined by the
+      -- necessary preconditions of the errors: by design they describe only the executions that go on to violate an
+      -- assertion, so they are not checked as invariants of all executions ([C01]); the verdicts are ([C02])
+      let refined := match sectionOf "fbparams" args with | some [_, .atom "1"] => true | _ => false
+      let m1 := if refined then none else s.c1.map (fun f => (confirm pp a f false).map (fun m => s!"[C01] {ctx}: {m}"))
       let m2 := s.c2.map (fun f => (confirm pp a f true).map (fun m => s!"[C02] {ctx}: {m}"))
       match m1, m2 with
       | none, none => .ok
